@@ -4,6 +4,8 @@ import CogentModel.Model.Composable
 import CogentModel.Model.StoreWrite
 import CogentModel.Model.AtomicProg
 import CogentModel.Gen.C19Program
+import CogentModel.Model.AtomicSite
+import CogentModel.Gen.C19Writers
 import Driver.C14Codec
 open CogentModel CogentModel.AtomicWrite
 
@@ -90,6 +92,37 @@ def handle (cmd : String) (j : J) : Except String J :=
     let r := exec fs (programTmp c cl)
     pure (.obj [("prog", .arr ((programTmp c cl).map fun i => callJ c i.call)), ("dest", nodeJ (r.1 c.dest)),
                 ("caller_file_kept", .bool ((r.1 precious).isSome)), ("error", .bool r.2.isSome)])
+  | "crash_tmp" | "fault_tmp" => do
+    -- atomic_write(path, tmpdir=D) killed just before call k / with call k raising: D = c.tmpdir exists and holds an unrelated file
+    let c ← parseCfg (← j.get "cfg")
+    let k ← (← j.get "k").toNat
+    let precious : Path := c.tmpdir ++ [7]
+    let fs := upd (upd (initFS c (← parseNode (← j.get "dest"))) c.tmpdir (some .dir)) precious (some (.file [1]))
+    let st := if cmd == "crash_tmp" then AtomicSite.crashStateTmp c fs k else AtomicSite.faultStateTmp c fs k
+    let tr := if cmd == "crash_tmp" then (programTmp c .unlinkFile).take k else AtomicSite.faultTraceTmp c k
+    pure (.obj [("dest", nodeJ (st c.dest)), ("tmpfile", .bool ((st c.tmpfile).isSome)), ("caller_dir", .bool ((st c.tmpdir).isSome)),
+                ("caller_file_kept", .bool ((st precious).isSome)), ("trace", .arr (tr.map fun i => callJ c i.call))])
+  | "gen_bare" => do
+    -- the translated methods driven as a bare object: aw = atomic_write(p); aw.write(ch)*; aw.close(); k = null: no fault
+    let c ← parseCfg (← j.get "cfg")
+    let fs := initFS c (← parseNode (← j.get "dest"))
+    let f ← match ← j.get "k" with
+      | .null => pure none
+      | x => do pure (some (← x.toNat))
+    let g : AtomicSite.BareCode := ⟨Gen.C19Program.init, Gen.C19Program.bareWrite, Gen.C19Program.bareClose⟩
+    let r := AtomicSite.runBare g c true f
+    -- the state: the calls issued, the failing one (position k) without effect
+    let eff := match f with
+      | none => r.trace
+      | some k => r.trace.take k ++ r.trace.drop (k + 1)
+    pure (.obj [("trace", .arr (r.trace.map fun i => callJ c i.call)), ("raised", .bool r.raised),
+                ("state", stateJ c (exec fs eff).1)])
+  | "sites" => do
+    let protoS : AtomicSite.Protocol → String := fun
+      | .withBlock => "withBlock" | .returned => "returned" | .bareObject => "bareObject"
+    pure (.arr (Gen.C19Writers.sites.map fun s =>
+      .obj [("file", .str s.file), ("func", .str s.func), ("protocol", .str (protoS s.protocol)), ("tmpdir_arg", .bool s.tmpdirArg),
+            ("in_zip_arg", .bool s.inZipArg), ("covered", .bool s.covered), ("mode", .str s.mode)]))
   | "gen_run" => do
     -- the program TRANSLATED from util/io.py (Gen/C19Program.lean) under Python's with-statement protocol:
     -- own = false: the tmpdir= route; k = null: no fault, k = n: call n raises
